@@ -337,6 +337,7 @@ struct Shared
   nostd::shared_ptr<trace_api::Tracer> tracer[2];
   bool idgen_random = true;
   std::string sampler_name;
+  vf::raw_atomic<int> in_startspan{0};  // threads currently inside Tracer::StartSpan (evidence of real overlap)
   // every id in play, with the thread that brought it in (new span, or remote id made up by that thread)
   std::mutex mu;
   std::unordered_map<uint64_t, int> span_owner;
@@ -380,6 +381,25 @@ struct Shared
   }
 };
 
+// span ids the SDK's random generator produced in ALL cases of this process ("never seen before in the run"),
+// bounded so a thorough shard stays within memory; beyond the bound ids are only compared within their case
+struct RunIds
+{
+  std::mutex mu;
+  std::unordered_set<uint64_t> ids;
+  static constexpr size_t kMax = 3000000;
+  // false if the id was already produced by an earlier case
+  bool fresh(uint64_t sid, bool &tracked)
+  {
+    std::lock_guard<std::mutex> g(mu);
+    tracked = ids.size() < kMax;
+    if (!tracked)
+      return ids.count(sid) == 0;
+    return ids.insert(sid).second;
+  }
+};
+RunIds g_run_ids;
+
 // per-thread counters, flushed once (the Report mutex must not serialise the threads)
 struct Ctr
 {
@@ -404,8 +424,7 @@ struct Node
   bool has_parent = false;
   uint8_t want_par[8];  // model's parent span id (zero if none)
   std::string mech;     // decisive mechanism of its start
-  std::string alts;     // other candidate parents at the time, for classification: span ids
-  Cv cand_active, cand_explicit;
+  Cv cand_active, cand_explicit;  // the other candidate parents at the time (to classify a wrong parent)
   bool ended = false, export_checked = false;
   int depth = 1;
 };
@@ -437,10 +456,12 @@ struct Prog
   std::vector<ScopeEnt> stack;  // model of this thread's runtime-context stack (span entries only)
   std::map<int, std::unique_ptr<trace_api::Scope>> scopes;
   int next_scope = 0;
-  bool last_release_ooo = false;
   uint64_t chash        = 0;
   std::string text;
   uint64_t nstarts = 0, max_depth = 0;
+  // the active span as StartSpan's caller can observe it (== model top unless the active-span assertion fired)
+  Cv cur_act;
+  int cur_act_depth = 0;
 
   Prog(Shared &s, int t, uint64_t seed, bool th) : sh(s), tid(t), r(seed), threads(th) {}
 
@@ -692,7 +713,7 @@ struct Prog
 
   void build_options(Opt &op)
   {
-    Cv act        = active();
+    Cv act        = cur_act;
     unsigned kind = static_cast<unsigned>(r.below(100));
     std::vector<size_t> usable;
     for (size_t i = 0; i < nodes.size(); ++i)
@@ -704,7 +725,7 @@ struct Prog
       {
         w.has_parent = true;
         w.parent     = act;
-        w.depth      = active_depth();
+        w.depth      = cur_act_depth;
         w.mech       = std::string("active:") + why;
       }
       else
@@ -761,9 +782,9 @@ struct Prog
       if (c < 10)
       {
         ctx      = context::RuntimeContext::GetCurrent();  // carries this thread's active span, if any
-        has_span = !stack.empty();
+        has_span = !stack.empty() || act.valid();
         span_cv  = act;
-        depth    = active_depth();
+        depth    = cur_act_depth;
         op.desc += "current";
       }
       if (r.chance(1, 6))
@@ -838,10 +859,23 @@ struct Prog
   void start_span()
   {
     auto &R = vf::report();
+    // The active span is an input of StartSpan.  It is checked against the per-thread stack model by its own
+    // assertion; the start itself is judged against what the caller can observe, so a broken runtime stack
+    // does not cascade into every identity assertion.
+    cur_act       = cv_of(trace_api::Tracer::GetCurrentSpan()->GetContext());
+    cur_act_depth = active_depth();
+    {
+      Cv m = active();
+      if (!(cur_act.same_trace(m) && cur_act.same_span(m) && cur_act.flags == m.flags))
+      {
+        check_active("before-start");
+        cur_act_depth = 0;
+      }
+    }
     Opt op;
     build_options(op);
     Resolved w = op.want;
-    Cv act     = active();
+    Cv act     = cur_act;
     Cv expl    = op.expl;
 
     // script for the scripted sampler (ignored by the built-ins)
@@ -860,10 +894,14 @@ struct Prog
     vf::Buf nb(name);
     auto &tracer = sh.tracer[r.chance(1, 5) ? 1 : 0];
     nostd::shared_ptr<trace_api::Span> span;
+    int others = sh.in_startspan.fetch_add(1, std::memory_order_relaxed);
     if (r.chance(1, 6))
       span = tracer->StartSpan(nostd::string_view(nb.data(), nb.size()), {{"vf.k", static_cast<int64_t>(1)}}, op.o);
     else
       span = tracer->StartSpan(nostd::string_view(nb.data(), nb.size()), op.o);
+    others = std::max(others, sh.in_startspan.fetch_sub(1, std::memory_order_relaxed) - 1);
+    if (others > 0)
+      C("starts_overlapping_another_thread");
     r.coin() ? nb.scribble() : nb.release();
     SamplerCall call = t_call;
     ++nstarts;
@@ -922,6 +960,17 @@ struct Prog
                           : prev != tid                            ? "repeated-across-threads"
                                                                    : "repeated";
         R.violation("span-id-fresh", cls, detail + " (id first seen on thread " + std::to_string(prev) + ")");
+      }
+      else if (sh.idgen_random)
+      {
+        bool tracked = false;
+        if (!g_run_ids.fresh(got.sid(), tracked))
+        {
+          sid_ok = false;
+          R.violation("span-id-fresh", "repeated-across-cases", detail + " (id was produced in an earlier case of this process)");
+        }
+        if (tracked)
+          C("span_ids_tracked_run_wide");
       }
     }
 
@@ -1013,7 +1062,6 @@ struct Prog
       R.violation("trace-state-source", "sampler-none-no-parent", detail + " | nothing to take a trace state from");
 
     // --- coverage
-    bool expl_valid = expl.valid();
     if (w.mech == "spancontext")
       C("decisive_spancontext");
     else if (w.mech == "context-span")
@@ -1025,14 +1073,14 @@ struct Prog
     else if (w.mech.compare(0, 5, "none:") == 0)
       C("decisive_none");
     if ((w.mech == "spancontext" || w.mech == "context-span") && act.valid() && !act.same_span(w.parent))
-      C(act.same_trace(w.parent) ? "explicit_over_active_same_trace" : "explicit_over_active_other_trace");
-    if ((w.mech == "spancontext" || w.mech == "context-span") && act.valid() && !act.same_span(w.parent))
+    {
       C("decisive_explicit_over_active");
+      C(act.same_trace(w.parent) ? "explicit_over_active_same_trace" : "explicit_over_active_other_trace");
+    }
     if (w.mech == "context-root" && act.valid())
       C("root_mark_over_active");
     if (w.mech == "active:invalid-spancontext" || w.mech == "active:context-no-span")
       C("invalid_explicit_falls_to_active");
-    (void)expl_valid;
     if (w.has_parent && w.parent.sampled() && !want_sampled)
       C("sampler_drop_under_sampled_parent");
     if (w.has_parent && !w.parent.sampled() && want_sampled)
@@ -1597,5 +1645,14 @@ int main(int argc, char **argv)
     else
       model_case(s, max_ops);
   });
+#ifdef VF_SHIM_H
+  {
+    vf_shim_counters sc;
+    vf_counters(&sc);
+    R.count("shim_points", sc.points);
+    R.count("shim_yields", sc.yields);
+    R.count("shim_sleeps", sc.sleeps);
+  }
+#endif
   return R.finish();
 }
